@@ -12,7 +12,8 @@
                                                      write_message_reliable (requested changes)
    The code is the one after the repairs a89778b (INFO_REPLY ignored), 8329c8d (GAP in constant time),
    6f37365 (SequenceNumberSet iterator), df6af72 (ACKNACK base), 1f8d93c (HEARTBEAT first <= 0),
-   9291c1e (sequence number i64::MAX), 84c5233 (fragment count vs payload).
+   9291c1e (sequence number i64::MAX), 84c5233 (fragment count vs payload), 91937ff (a GAP only skips
+   numbers contiguous with what was received).
    The decoder is Wire/WireModel.v (parse_message).  Debug profile: `+ 1` / `- 1` on i64 and `+=` on
    u32 panic on overflow.  A participant is the list of its stateful readers (user-defined first,
    then builtin: the order of the `chain` in handle_data) and of its stateful writers; every
@@ -256,11 +257,18 @@ Fixpoint sn_members_from (base : Z) (ws : list Z) (n : nat) (i : Z) : list Z :=
 Definition sn_members (s : snset) : list Z :=
   sn_members_from (ss_base s) (ss_map s) (Z.to_nat (ss_bits s)) 0.
 
-(* handle_gap_submessage on the matching proxy: the range gap_start..base is marked by its last
-   element, then the set *)
+(* irrelevant_change_range (91937ff): the range is only taken when it is contiguous with what is
+   accounted for; available_changes_max() is evaluated first *)
+Definition raise_range (p : wproxy) (first last : Z) : res wproxy :=
+  am <- avail_max p ;;
+  Ok (if (first <=? Z.min i64_max (am + 1)) && (wp_high p <? last) then set_wp_high p last else p).
+(* irrelevant_change_set a = irrelevant_change_range a a, for every member of the set *)
+Fixpoint raise_all (ms : list Z) (p : wproxy) : res wproxy :=
+  match ms with [] => Ok p | x :: t => q <- raise_range p x x ;; raise_all t q end.
+(* handle_gap_submessage on the matching proxy: the range gap_start..base in one step, then the set *)
 Definition gap_proxy (start : Z) (gl : snset) (p : wproxy) : res wproxy :=
-  let p1 := if start <? ss_base gl then raise_high p (ss_base gl - 1) else p in
-  Ok (fold_left raise_high (sn_members gl) p1).
+  p1 <- (if start <? ss_base gl then raise_range p start (ss_base gl - 1) else Ok p) ;;
+  raise_all (sn_members gl) p1.
 
 Definition hbf_proxy (count : Z) (p : wproxy) : wproxy := if wp_hb p <? count then set_wp_hbf p count else p.
 
